@@ -105,9 +105,18 @@ def volume_local(tn):
 def level_local(tn):
     """id of the local written to the total-level registers: the value argument of writeRegI(.., 0x40 + .., v)"""
     for x in walk(tn.tree):
-        if isinstance(x, dict) and 'callee' in x and short(callee_name(x)) == 'writeRegI' and len(x.get('a', [])) >= 4 and strip(x['a'][3]).get('k') == 'DeclRefExpr':
-            if any(isinstance(y, dict) and const_of(y) == 0x40 for y in walk(subst(x['a'][2], single_defs(tn.d)))):
-                return strip(x['a'][3])['id']
+        if isinstance(x, dict) and 'callee' in x and short(callee_name(x)) == 'writeRegI' and len(x.get('a', [])) >= 4:
+            if not any(isinstance(y, dict) and const_of(y) == 0x40 for y in walk(subst(x['a'][2], single_defs(tn.d)))):
+                continue
+            v = strip(x['a'][3])
+            if v.get('k') == 'DeclRefExpr':
+                return v['id']
+            # the levels are collected in a local array first and written in a second pass: the local stored into that array
+            if v.get('k') == 'ArraySubscriptExpr' and strip(v['b']).get('k') == 'DeclRefExpr':
+                for y in walk(tn.tree):
+                    ap = assign_parts_raw(y) if isinstance(y, dict) else None
+                    if ap and ap[2] == '=' and strip(ap[0]).get('k') == 'ArraySubscriptExpr' and strip(strip(ap[0])['b']).get('id') == strip(v['b'])['id'] and strip(ap[1]).get('k') == 'DeclRefExpr':
+                        return strip(ap[1])['id']
     return None
 
 
@@ -140,6 +149,18 @@ def analyse(facts, tier):
         if ('OPN2::touchNote', pidx[n]) not in pr:
             raise build.AnalysisBroken('C11: no call-site range for touchNote parameter %s' % n)
 
+    def scaling_arm(x):
+        """True / False when the assignment x stands in the then / else arm of an `if` on the scaling decision itself, else None"""
+        g = tn.tree_guards().get((x.get('ln'), show(x)))
+        for it in reversed(g or []):
+            if it[0] == 'if':
+                c = strip(it[1])
+                if c.get('k') == 'DeclRefExpr' and c.get('id') in SCALE_IDS:
+                    return bool(it[2])
+                if mentions(c, lambda y: y.get('k') == 'DeclRefExpr' and y.get('id') in SCALE_IDS):
+                    return None
+        return None
+
     # ---- R1
     for o in res['obl']:
         if o.fn not in ('OPN2::touchNote',) or o.kind not in ('index', 'fcast'):
@@ -160,7 +181,13 @@ def analyse(facts, tier):
                 levels.append((x.get('ln'), 'scaled level (do_op)', e_.ev(x['l'], st)))
             ap = assign_parts(x)
             if ap and strip(ap[0]).get('k') == 'DeclRefExpr' and strip(ap[0]).get('id') == level_local(tn):
-                levels.append((x.get('ln'), 'brightness-scaled level', e_.ev(ap[1], st)))
+                arm = scaling_arm(x)
+                if arm is True:
+                    levels.append((x.get('ln'), 'scaled level (do_op)', e_.ev(ap[1], st)))      # `if(do_op) level = ..` instead of `do_op ? .. : ..`
+                elif arm is False and not mentions(ap[1], lambda y: y.get('k') == 'DeclRefExpr' and y.get('id') == tn.params[pidx['brightness']]['id']):
+                    pass        # the unscaled arm of the same decision: the byte of the patch as it is
+                else:
+                    levels.append((x.get('ln'), 'brightness-scaled level', e_.ev(ap[1], st)))
     def decl_hook(e_, e, st):
         pass
     eng.value_hooks.append(lvl_hook)
@@ -244,7 +271,13 @@ def analyse(facts, tier):
                 dirs['level_vs_volume'] = (e_.dir_of(x['l'], st), x.get('ln'))
                 e_.wrt, e_.mono = save
             ap = assign_parts(x)
-            if ap and strip(ap[0]).get('k') == 'DeclRefExpr' and strip(ap[0]).get('id') == level_local(tn):
+            if ap and strip(ap[0]).get('k') == 'DeclRefExpr' and strip(ap[0]).get('id') == level_local(tn) and scaling_arm(x) is True:
+                save = e_.wrt, dict(e_.mono)
+                e_.wrt = ('v', vol_id); e_.mono = {}
+                dirs['level_vs_volume'] = (e_.dir_of(ap[1], st), x.get('ln'))
+                e_.wrt, e_.mono = save
+            elif ap and strip(ap[0]).get('k') == 'DeclRefExpr' and strip(ap[0]).get('id') == level_local(tn) and not (
+                    scaling_arm(x) is False and not mentions(ap[1], lambda y: y.get('k') == 'DeclRefExpr' and y.get('id') == tn.params[pidx['brightness']]['id'])):
                 save = e_.wrt, dict(e_.mono)
                 e_.wrt = ('v', tn.params[pidx['brightness']]['id']); e_.mono = {}
                 dirs['level_vs_brightness'] = (e_.dir_of(ap[1], st), x.get('ln'))
